@@ -59,8 +59,8 @@ MIN_COUNTERS = {'invariant_evaluated': 2000, 'steps_judged': 2000, 'probe_clones
                 'op_union_renorm_false': 100, 'op_add_pixels_renorm_false': 50,
                 'union_renorm_false_with_coarse_pixels_after_query': 5,
                 'renorm_false_add_pixels_coarse_after_query': 5,
-                'seam_probes_judged': 50000, 'pole_probes_judged': 10000, 'pole_probes_expected_inside': 500,
-                'seam_probes_expected_inside': 2000, 'pole_scalar_calls': 20}
+                'seam_probes_judged': 500000, 'pole_probes_judged': 100000, 'pole_probes_expected_inside': 5000,
+                'seam_probes_expected_inside': 50000, 'pole_scalar_calls': 50}
 BATCH_TIMEOUT = 1500
 
 AREA_RTOL = 1e-9        # float summation over <= 12 levels; the statement says "exactly", sets are compared exactly
